@@ -59,53 +59,60 @@ theorem lex1_count_rp : ∀ (c : Bytes) (m : Bool), (lex1 m c).count .rp = c.cou
             simp [this, lex1_count_rp r true]
 
 /-- the balance counter of pass 1 -/
-theorem run1_j : ∀ (l : List T1) (s s' : S1), run1 l s = .ok s' →
+theorem run1_j (fx : Fix) : ∀ (l : List T1) (s s' : S1), run1 fx l s = .ok s' →
     s'.j = s.j + (l.count .lp : Int) - (l.count .rp : Int)
   | [], s, s', h => by simp [run1] at h; subst h; simp
   | t :: r, s, s', h => by
     cases t with
-    | lp => simp only [run1] at h; have := run1_j r _ _ h; simp at this ⊢; omega
-    | rp => simp only [run1] at h; have := run1_j r _ _ h; simp at this ⊢; omega
-    | sp => simp only [run1] at h; have := run1_j r _ _ h; simp at this ⊢; omega
+    | lp => simp only [run1] at h; have := run1_j fx r _ _ h; simp at this ⊢; omega
+    | rp =>
+      simp only [run1] at h
+      split at h
+      · simp at h
+      · have := run1_j fx r _ _ h; simp at this ⊢; omega
+    | sp => simp only [run1] at h; have := run1_j fx r _ _ h; simp at this ⊢; omega
     | uend => simp [run1] at h
-    | feat => simp only [run1] at h; have := run1_j r _ _ h; simp at this ⊢; omega
+    | feat => simp only [run1] at h; have := run1_j fx r _ _ h; simp at this ⊢; omega
     | not =>
       simp only [run1] at h
-      split at h <;> (have := run1_j r _ _ h; simp at this ⊢; omega)
+      split at h <;> (have := run1_j fx r _ _ h; simp at this ⊢; omega)
     | bin =>
       simp only [run1] at h
       split at h
       · simp at h
-      · have := run1_j r _ _ h; simp at this ⊢; omega
+      · have := run1_j fx r _ _ h; simp at this ⊢; omega
 
-theorem run1_err : ∀ (l : List T1) (s : S1) (e : Err), run1 l s = .error e → e = .unexpEnd ∨ e = .missingBefore
+theorem run1_err (fx : Fix) : ∀ (l : List T1) (s : S1) (e : Err), run1 fx l s = .error e →
+    e = .unexpEnd ∨ e = .missingBefore ∨ e = .parens
   | [], _, _, h => by simp [run1] at h
   | t :: r, s, e, h => by
     cases t with
-    | lp => exact run1_err r _ e (by simpa [run1] using h)
-    | rp => exact run1_err r _ e (by simpa [run1] using h)
-    | sp => exact run1_err r _ e (by simpa [run1] using h)
+    | lp => exact run1_err fx r _ e (by simpa [run1] using h)
+    | rp =>
+      simp only [run1] at h
+      split at h
+      · simp at h; exact Or.inr (Or.inr h.symm)
+      · exact run1_err fx r _ e h
+    | sp => exact run1_err fx r _ e (by simpa [run1] using h)
     | uend => simp [run1] at h; exact Or.inl h.symm
-    | feat => exact run1_err r _ e (by simpa [run1] using h)
+    | feat => exact run1_err fx r _ e (by simpa [run1] using h)
     | not =>
       simp only [run1] at h
-      split at h <;> exact run1_err r _ e h
+      split at h <;> exact run1_err fx r _ e h
     | bin =>
       simp only [run1] at h
       split at h
-      · simp at h; exact Or.inr h.symm
-      · exact run1_err r _ e h
+      · simp at h; exact Or.inr (Or.inl h.symm)
+      · exact run1_err fx r _ e h
 
-theorem compile_unbalanced (lookup : Bytes → Option Nat) (ver11 : Bool) (c : Bytes) (h : c.count chLP ≠ c.count chRP) :
-    ∃ er, compile lookup ver11 c = .error er ∧ (er = .unexpEnd ∨ er = .missingBefore ∨ er = .parens) := by
+theorem compile_unbalanced (fx : Fix) (lookup : Bytes → Option Nat) (ver11 : Bool) (c : Bytes)
+    (h : c.count chLP ≠ c.count chRP) :
+    ∃ er, compile fx lookup ver11 c = .error er ∧ (er = .unexpEnd ∨ er = .missingBefore ∨ er = .parens) := by
   unfold compile compileToks
-  cases h1 : run1 (lex1 false c) {} with
-  | error e =>
-    rcases run1_err _ _ _ h1 with h2 | h2
-    · exact ⟨e, rfl, Or.inl h2⟩
-    · exact ⟨e, rfl, Or.inr (Or.inl h2)⟩
+  cases h1 : run1 fx (lex1 false c) {} with
+  | error e => exact ⟨e, rfl, run1_err fx _ _ _ h1⟩
   | ok s1 =>
-    have hj := run1_j _ _ _ h1
+    have hj := run1_j fx _ _ _ h1
     rw [lex1_count_lp, lex1_count_rp] at hj
     have : s1.j ≠ 0 := by
       intro h0
